@@ -5,7 +5,7 @@ use crate::{
     iso::{IsoDateTime, IsoTime},
     options::{
         ArithmeticOverflow, RelativeTo, ResolvedRoundingOptions, RoundingIncrement,
-        RoundingOptions, ToStringRoundingOptions, Unit,
+        RoundingOptions, ToStringRoundingOptions, Unit, UnitGroup,
     },
     parsers::{FormattableDateDuration, FormattableDuration, FormattableTimeDuration, Precision},
     primitive::FiniteF64,
@@ -691,6 +691,8 @@ impl Duration {
         provider: &impl TimeZoneProvider,
         // Review question what is the return type of duration.prototye.total?
     ) -> TemporalResult<FiniteF64> {
+        // `unit` is a required DATETIME unit: `auto` is not a valid value.
+        UnitGroup::DateTime.validate_required_unit(Some(unit), None)?;
         match relative_to {
             // 11. If zonedRelativeTo is not undefined, then
             Some(RelativeTo::ZonedDateTime(zoned_datetime)) => {
